@@ -110,6 +110,43 @@ def mfi_ref(p):
     return f
 
 
+def _locality(arr, first, ref, n):
+    """first element whose dependence mask is not inside the set of candles its reference definition mentions"""
+    import re as _re
+    if not isinstance(arr, NA) or arr.ndim != 1:
+        return None
+    for i in range(first, min(n, len(arr.data))):
+        x = arr.data[i]
+        if not isinstance(x, D):
+            continue
+        want = ref(i)
+        allowed = 0
+        for a in _atoms_deep(want):
+            m = _re.fullmatch(r"(?:[a-z]+_)?[a-z]+?(\d+)", a) if isinstance(a, str) else None
+            if m:
+                allowed |= 1 << int(m.group(1))
+        extra = x.m & ~allowed
+        if allowed and extra:
+            return i, [k for k in range(extra.bit_length()) if extra >> k & 1][:6]
+    return None
+
+
+def _atoms_deep(r):
+    out = set()
+    stack = [r]
+    while stack:
+        x = stack.pop()
+        if isinstance(x, R):
+            for a in x.atoms():
+                if isinstance(a, Op):
+                    stack.extend(a.args)
+                else:
+                    out.add(a)
+        elif isinstance(x, Op):
+            stack.extend(x.args)
+    return out
+
+
 def compare_series(rep, rid, name, params, field, got, first, ref, n, desc):
     bad = None
     checked = 0
@@ -134,11 +171,21 @@ def check_windowed(repo, rep):
                   "candle inputs (exact rational normal form; comparisons / max / min / abs as canonical opaque atoms), for n = 12 and small periods")
     for name, params, fields, desc in WINDOWED:
         try:
+          if True:
             out = run_ind(repo, name, **params)
             memo = {}
             for field, (first, ref) in fields.items():
                 if field not in out:
                     rep.violation(rid, f"{name}|{field}", f"{name} does not return a field '{field}'")
+                    continue
+                # window locality first (cheap, and it holds or fails whatever the arithmetic): element i may depend only on the
+                # candles its definition mentions - a value built from sums over the whole history (a running sum whose old terms
+                # "cancel") is a function of the trailing window in exact arithmetic only
+                loc = _locality(out[field], first, ref, N)
+                if loc is not None:
+                    i, extra = loc
+                    rep.violation(rid, f"{name}|{field}|locality", f"{name}({params}) field '{field}', element {i} depends on candle(s) {extra} outside the window of its definition "
+                                                                  f"({desc}): the value is not a function of the trailing window (terms of the whole history only cancel in exact arithmetic)")
                     continue
                 compare_series(rep, rid, name, params, field, elems(out[field], memo), first, ref, N, desc)
         except Undecided as e:
@@ -1023,14 +1070,27 @@ def check_homogeneity(repo, rep):
 
 def run(repo: Repo, rep, tier: str):
     rep.assume("symbolic identities are for input length 12 (ma selector: 70) and periods 3/4/5; exact rational arithmetic; comparisons, max/min, abs, sqrt are canonical opaque atoms")
-    rep.guarded(check_ma_selector, repo, rep)
-    rep.guarded(check_witness_definitions, repo, rep)
-    rep.guarded(check_nan_poisoning, repo, rep)
-    rep.guarded(check_constant_reproduced, repo, rep)
-    rep.guarded(check_windowed, repo, rep)
-    rep.guarded(check_recurrences, repo, rep)
-    rep.guarded(check_ranges, repo, rep)
-    rep.guarded(check_homogeneity, repo, rep)
+    from vlib.indic_vals import time_limit
+
+    def limited(fn, seconds=150):
+        # a rule group that blows up on a reformulated indicator ends as an analysis error of that group (the others still decide)
+        def run_(repo_, rep_):
+            from vlib.indic_vals import TimeBudget
+            try:
+                with time_limit(seconds, fn.__name__):
+                    return fn(repo_, rep_)
+            except TimeBudget as e:
+                raise AnalysisError(str(e))
+        run_.__name__ = fn.__name__
+        return run_
+    rep.guarded(limited(check_ma_selector), repo, rep)
+    rep.guarded(limited(check_witness_definitions), repo, rep)
+    rep.guarded(limited(check_nan_poisoning), repo, rep)
+    rep.guarded(limited(check_constant_reproduced), repo, rep)
+    rep.guarded(limited(check_windowed, 120), repo, rep)
+    rep.guarded(limited(check_recurrences), repo, rep)
+    rep.guarded(limited(check_ranges), repo, rep)
+    rep.guarded(limited(check_homogeneity), repo, rep)
     from props.c14 import check_purity
     rep.guarded(check_purity, repo, rep, "C15-R8")
     rep.undecided_item("value agreement of recursive smoothers after seed decay (the recurrence step is decided)")
